@@ -27,7 +27,8 @@ type Case struct {
 	Sink     *sim.SinkPlan     `json:"sink,omitempty"`
 	Consumer *sim.ConsumerPlan `json:"consumer,omitempty"`
 	Rec      *WriteRec         `json:"rec,omitempty"`
-	K        int               `json:"k,omitempty"` // CanonicalSubsequences k
+	K        int               `json:"k,omitempty"`        // CanonicalSubsequences k
+	FDBurst  int               `json:"fd_burst,omitempty"` // C18 File: this many stopped walks in a row under a small descriptor budget
 	Trie     *TrieCase         `json:"trie,omitempty"`
 	Regions  *RegionsCase      `json:"regions,omitempty"`
 }
